@@ -113,6 +113,7 @@ func c02(r *Report) {
 	r.Gate(Gate{ID: "C02.inner.validity.expires-present", Fn: mv, Effect: SuccessReturn(), Check: CmpCheck("expires == nil is false", token.EQL, CallV(Fn("vcr/credential", "", "PresentationExpirationDate"), -1), NilV(), false)})
 	r.Gate(Gate{ID: "C02.inner.validity.window", Fn: mv, Effect: SuccessReturn(), Check: CmpCheck("expires.Sub(created) <= s2sMaxPresentationValidity", token.LEQ, CallV(Fn("std:time", "Time", "Sub"), -1), p.ConstV(iam, "s2sMaxPresentationValidity"), true)})
 	c02MaxValidityConst(r)
+	c02Audit3(r)
 	au := p.Func(iam, "Wrapper", "validatePresentationAudience")
 	r.Gate(Gate{ID: "C02.inner.audience.equals-own-url", Fn: au, Effect: SuccessReturn(), Check: CmpCheck("aud == expected.String()", token.EQL, AnyV(), CallV(Fn("std:net/url", "URL", "String"), -1), true)})
 	sg := p.Func(iam, "", "validatePresentationSigner")
